@@ -141,80 +141,63 @@ def _clamps(fn: FuncInfo, param: str, rep, rule: str):
 
 
 def _audit_simplex_table(model: Model, rep, fname: str, rd: RefdomInfo):
+    """Audit per *requested order*: the function is interpreted for every
+    order from -1 to the largest tabulated key (clamps, index arithmetic,
+    post-scaling and fallbacks are therefore all part of what is audited)
+    and for orders beyond the table, which must raise."""
     fn = model.func(QMOD, fname)
     R1 = "C08-R1"
     if not _is_unit_simplex(rd):
         raise AnalysisError(f"{rd.name}.p is not the unit simplex the exact "
                             f"moment formula assumes")
     dim = rd.dim
-    param, tr, table, index = _find_table(fn)
-    # index expression: must be the (clamped) parameter plus a constant >= 0
-    it = Interp(model)
-    try:
-        iv = it.eval(index, {param: Poly.sym("n")}, fn.module)
-        off = iv - Poly.sym("n")
-        if not (isinstance(off, Poly) and off.is_const()):
-            raise Unsupported("index not affine in the order")
-        off = off.const_value()
-    except Unsupported as e:
-        raise AnalysisError(f"{fname}: lookup index outside grammar: {e}")
-    if off < 0:
-        rep.fail(R1, F, fname, "lookup-index",
-                 f"table is indexed with order{off}: a rule of lower degree "
-                 f"than requested is returned", index.lineno)
-    else:
-        rep.ok(R1, f"{fname}:lookup-index",
-               f"table indexed by the requested order (+{off})")
-    _clamps(fn, param, rep, R1)
-    # missing key reaches a raise
-    for h in tr.handlers:
-        last = h.body[-1] if h.body else None
-        c = f"{fname}:except {src(h.type) if h.type else ''}"
-        if isinstance(last, ast.Raise) and not any(
-                isinstance(n, ast.Return) for s in h.body
-                for n in ast.walk(s)):
-            rep.ok(R1, c, "orders outside the table reach a raise")
-        else:
-            rep.fail(R1, F, fname, f"except {src(h.type) if h.type else ''}",
-                     "an order missing from the table does not raise (the "
-                     "handler returns instead)", h.lineno)
-    if not tr.handlers:
-        rep.ok(R1, f"{fname}:no-handler", "KeyError propagates")
-    # the tables
-    nkeys = 0
-    for k, v in zip(table.keys, table.values):
-        if not (isinstance(k, ast.Constant) and isinstance(k.value, int)):
-            raise AnalysisError(f"{fname}: non-literal table key {src(k)}")
-        n = k.value + int(off) * 0
-        adv = k.value - int(off)     # order a caller asked for to get here
+    dicts = [n for n in ast.walk(fn.node) if isinstance(n, ast.Dict)
+             and n.keys and all(isinstance(k, ast.Constant)
+                                and isinstance(k.value, int)
+                                for k in n.keys)]
+    if not dicts:
+        raise AnalysisError(f"{fname}: no table keyed by integer orders")
+    table = max(dicts, key=lambda d: len(d.keys))
+    keys = sorted(k.value for k in table.keys)
+    kline = {k.value: k.lineno for k in table.keys}
+    nrules = 0
+    seen_rules = {}
+    for r in range(-1, max(keys) + 1):
+        cons = f"order={r}"
         try:
-            val = Interp(model).eval(v, {}, fn.module)
-        except (Unsupported, Raised) as e:
-            raise AnalysisError(f"{fname}[{k.value}] outside grammar: {e}")
+            val = Interp(model).call(fn, [r], {})
+        except Raised:
+            rep.ok(R1, f"{fname}:{cons}:not-offered",
+                   "order not offered: raises")
+            continue
+        except Unsupported as e:
+            raise AnalysisError(f"{fname}({r}) outside grammar: {e}")
         if not (isinstance(val, tuple) and len(val) == 2
                 and isinstance(val[0], Arr) and isinstance(val[1], Arr)):
-            raise AnalysisError(f"{fname}[{k.value}] is not (points, weights)")
+            raise AnalysisError(f"{fname}({r}) is not (points, weights)")
         X, W = val
+        line = kline.get(r, fn.lineno)
         if len(X.shape) != 2 or X.shape[0] != dim or \
                 W.shape != (X.shape[1],):
-            rep.fail(R1, F, fname, f"key={k.value}:shape",
+            rep.fail(R1, F, fname, f"{cons}:shape",
                      f"points {X.shape} / weights {W.shape} are not "
-                     f"({dim}, n) / (n,)", k.lineno)
+                     f"({dim}, n) / (n,)", line)
             continue
-        nkeys += 1
+        nrules += 1
+        adv = max(r, 0)
         pts = [[Fraction(X[d][q]) for d in range(dim)]
                for q in range(X.shape[1])]
         w = [Fraction(W[q]) for q in range(X.shape[1])]
-        cons = f"key={k.value}"
-        # weights sum to the measure
+        sig = (tuple(map(tuple, pts)), tuple(w))
         err = abs(sum(w) - _simplex_measure(dim))
         if err <= TOL:
-            rep.ok(R1, f"{fname}:{cons}:sum", f"sum of weights = 1/{factorial(dim)}")
+            rep.ok(R1, f"{fname}:{cons}:sum",
+                   f"sum of weights = 1/{factorial(dim)}")
         else:
             rep.fail(R1, F, fname, f"{cons}:sum",
-                     f"weights sum to {float(sum(w)):.16g}, not the measure "
-                     f"{float(_simplex_measure(dim)):.16g}", k.lineno)
-        # nodes in the closed simplex
+                     f"the rule returned for order {r} has weights summing "
+                     f"to {float(sum(w)):.16g}, not the measure "
+                     f"{float(_simplex_measure(dim)):.16g}", line)
         outside = [q for q, p in enumerate(pts)
                    if min(p) < -TOL or sum(p) > 1 + TOL]
         if not outside:
@@ -222,9 +205,15 @@ def _audit_simplex_table(model: Model, rep, fname: str, rd: RefdomInfo):
                    f"{len(pts)} nodes in the closed reference cell")
         else:
             rep.fail(R1, F, fname, f"{cons}:inside",
-                     f"node(s) {outside[:4]} lie outside the reference cell",
-                     k.lineno)
-        # all monomials of total degree <= advertised order
+                     f"node(s) {outside[:4]} of the rule for order {r} lie "
+                     f"outside the reference cell", line)
+        # moments: reuse the verdict of an identical rule audited to a
+        # degree at least as high
+        prev = seen_rules.get(sig)
+        if prev is not None and prev[0] >= adv and prev[1]:
+            rep.ok(R1, f"{fname}:{cons}:degree",
+                   f"same rule as audited for degree {prev[0]}")
+            continue
         worst, worst_m = Fraction(0), None
         pw = [[[Fraction(1)] for _ in range(dim)] for _ in pts]
         for q, p in enumerate(pts):
@@ -236,25 +225,38 @@ def _audit_simplex_table(model: Model, rep, fname: str, rd: RefdomInfo):
             if sum(exps) > adv:
                 continue
             nmono += 1
-            s = Fraction(0)
+            s_ = Fraction(0)
             for q in range(len(pts)):
                 t = w[q]
                 for d in range(dim):
                     t *= pw[q][d][exps[d]]
-                s += t
-            e = abs(s - _exact_moment(exps))
+                s_ += t
+            e = abs(s_ - _exact_moment(exps))
             if e > worst:
                 worst, worst_m = e, exps
-        if worst <= TOL:
+        good = worst <= TOL
+        seen_rules[sig] = (adv, good)
+        if good:
             rep.ok(R1, f"{fname}:{cons}:degree",
                    f"all {nmono} monomials of total degree <= {adv} exact "
-                   f"(max error {float(worst):.1e})", sample=(k.value == 5))
+                   f"(max error {float(worst):.1e})", sample=(r == 5))
         else:
             rep.fail(R1, F, fname, f"{cons}:degree",
-                     f"rule offered for order {adv} does not integrate "
+                     f"the rule returned for order {r} does not integrate "
                      f"x^{worst_m} exactly: error {float(worst):.2e} "
-                     f"(tolerance {float(TOL):.0e})", k.lineno)
-    return nkeys
+                     f"(tolerance {float(TOL):.0e})", line)
+    for r in (max(keys) + 1, max(keys) + 2, max(keys) + 9):
+        cons = f"{fname}:order={r}:beyond-table"
+        try:
+            Interp(model).call(fn, [r], {})
+            rep.fail(R1, F, fname, f"order={r}:beyond-table",
+                     f"order {r} exceeds every tabulated rule but a rule is "
+                     f"returned instead of an error", fn.lineno)
+        except Raised:
+            rep.ok(R1, cons, "orders beyond the table raise")
+        except Unsupported as e:
+            raise AnalysisError(f"{fname}({r}) outside grammar: {e}")
+    return len(keys)
 
 
 # ----------------------------------------------------------------------
@@ -532,6 +534,15 @@ class TensorEval:
                                       f"{s.layout}", e.lineno)
                     rows.extend(s.rows)
                 return Flat(rows, layout, True)
+            if d == "numpy.outer" and len(e.args) == 2:
+                a, b = self.ev(e.args[0]), self.ev(e.args[1])
+                if isinstance(a, Flat) and isinstance(b, Flat) and \
+                        len(a.rows) == 1 and len(b.rows) == 1:
+                    # outer(a, b)[i, j] = a[i] * b[j]; C-order flatten keeps
+                    # a's index major
+                    return Flat([a.rows[0] + b.rows[0]],
+                                a.layout + b.layout, False)
+                raise AnalysisError("np.outer of non-vector values")
             if d in ("numpy.repeat", "numpy.tile"):
                 v = self.ev(e.args[0])
                 if not isinstance(v, Flat):
@@ -797,7 +808,7 @@ def run(model: Model, rep, tier: str) -> None:
     else:
         rep.fail("C08-R2", F, "get_quadrature_point", "weights",
                  "point rule does not return the single weight 1", pf.lineno)
-    rep.require_min("C08-R1", 80)
+    rep.require_min("C08-R1", 70)
     rep.require_min("C08-R3", 3)
     rep.require_min("C08-R4", 9)
 
